@@ -121,12 +121,13 @@ type Store struct {
 	terms   []*Term
 	vars    map[string]*Term
 	intBits map[int]int // signed bit bound of 64-bit terms produced by the IntFloat rewrite
+	zeroish map[int]bool // float terms known to be +0 or -0 (finite value times a zero constant)
 	True    *Term
 	False   *Term
 }
 
 func NewStore() *Store {
-	st := &Store{tab: map[string]*Term{}, vars: map[string]*Term{}, intBits: map[int]int{}}
+	st := &Store{tab: map[string]*Term{}, vars: map[string]*Term{}, intBits: map[int]int{}, zeroish: map[int]bool{}}
 	st.True = st.mk(&Term{Op: OConst, S: SBool, C: 1})
 	st.False = st.mk(&Term{Op: OConst, S: SBool, C: 0})
 	return st
@@ -938,6 +939,64 @@ func (st *Store) fpInt(t *Term) (*Term, int, bool) {
 	return nil, 0, false
 }
 
+// intViewLoose gives the integer value of a float expression built from IntFloat leaves with
+// +, -, negation, abs, multiplication by integral constants and ite.  The view ignores the sign
+// of zero, so it is used for comparisons only (fp.lt/leq/eq do not distinguish +0 and -0).
+func (st *Store) intViewLoose(t *Term, depth int) (*Term, int, bool) {
+	if iv, b, ok := st.fpInt(t); ok {
+		return iv, b, true
+	}
+	if depth <= 0 {
+		return nil, 0, false
+	}
+	switch t.Op {
+	case OConst:
+		f := t.F()
+		if f == math.Trunc(f) && math.Abs(f) <= 1<<52 {
+			c := st.BVs(64, int64(f))
+			return c, st.sbits(c), true
+		}
+	case OFNeg:
+		if iv, b, ok := st.intViewLoose(t.A[0], depth-1); ok {
+			return st.Neg(iv), b + 1, true
+		}
+	case OFAbs:
+		if iv, b, ok := st.intViewLoose(t.A[0], depth-1); ok {
+			return st.Ite(st.Bin(OSLt, iv, st.BV(64, 0)), st.Neg(iv), iv), b + 1, true
+		}
+	case OFAdd, OFSub:
+		ia, ba, ok1 := st.intViewLoose(t.A[0], depth-1)
+		ib, bb, ok2 := st.intViewLoose(t.A[1], depth-1)
+		if ok1 && ok2 {
+			if bb > ba {
+				ba = bb
+			}
+			if ba+1 <= 54 {
+				if t.Op == OFAdd {
+					return st.Bin(OAdd, ia, ib), ba + 1, true
+				}
+				return st.Bin(OSub, ia, ib), ba + 1, true
+			}
+		}
+	case OFMul:
+		ia, ba, ok1 := st.intViewLoose(t.A[0], depth-1)
+		ib, bb, ok2 := st.intViewLoose(t.A[1], depth-1)
+		if ok1 && ok2 && (t.A[0].Op == OConst || t.A[1].Op == OConst) && ba+bb <= 54 {
+			return st.Bin(OMul, ia, ib), ba + bb, true
+		}
+	case OIte:
+		ia, ba, ok1 := st.intViewLoose(t.A[1], depth-1)
+		ib, bb, ok2 := st.intViewLoose(t.A[2], depth-1)
+		if ok1 && ok2 {
+			if bb > ba {
+				ba = bb
+			}
+			return st.Ite(t.A[0], ia, ib), ba, true
+		}
+	}
+	return nil, 0, false
+}
+
 func (st *Store) mkIntFloat(iv *Term, b int) *Term {
 	if iv.Op != OConst {
 		st.intBits[iv.ID] = b
@@ -952,6 +1011,31 @@ func (st *Store) FBin(op Op, a, b *Term) *Term {
 		s = SBool
 	}
 	if a.Op != OConst || b.Op != OConst {
+		// finite value times a zero constant: a zero of unknown sign
+		if op == OFMul {
+			for _, pair := range [][2]*Term{{a, b}, {b, a}} {
+				if pair[1].Op == OConst && pair[1].F() == 0 {
+					if _, _, ok := st.fpInt(pair[0]); ok {
+						r := st.build(op, SFP, 0, 0, a, b)
+						st.zeroish[r.ID] = true
+						return r
+					}
+				}
+			}
+		}
+		// adding or subtracting a zero of either sign to an IntFloat value (never -0) gives that value
+		if op == OFAdd || op == OFSub {
+			if st.zeroish[b.ID] {
+				if _, _, ok := st.fpInt(a); ok {
+					return a
+				}
+			}
+			if st.zeroish[a.ID] && op == OFAdd {
+				if _, _, ok := st.fpInt(b); ok {
+					return b
+				}
+			}
+		}
 		// IntFloat against a finite non-integer constant: compare with its floor
 		if op == OFLt || op == OFLe || op == OFEq {
 			if b.Op == OConst {
@@ -974,6 +1058,20 @@ func (st *Store) FBin(op Op, a, b *Term) *Term {
 							return st.False
 						}
 						return st.Bin(OSLt, fl, ib) // c < ib  <=>  floor(c) < ib
+					}
+				}
+			}
+		}
+		if op == OFLt || op == OFLe || op == OFEq {
+			if ia, _, ok := st.intViewLoose(a, 12); ok {
+				if ib, _, ok := st.intViewLoose(b, 12); ok {
+					switch op {
+					case OFEq:
+						return st.Eq(ia, ib)
+					case OFLt:
+						return st.Bin(OSLt, ia, ib)
+					default:
+						return st.Bin(OSLe, ia, ib)
 					}
 				}
 			}
